@@ -421,6 +421,17 @@ pub enum SchedSpec {
     List { decisions: Vec<usize> },
 }
 
+/// One instruction-granular preemption (see step.rs): at `client`'s `visit`-th call of the in-build hook (counted
+/// from 1 over the whole run, all sites) single-step `steps` instructions of this executable's text and hand the
+/// baton to `to` between two instructions; `steps == 0` hands over right at the hook.
+#[derive(Clone, Debug, PartialEq, Eq)]
+pub struct Preempt {
+    pub client: usize,
+    pub visit: u64,
+    pub steps: u32,
+    pub to: usize,
+}
+
 #[derive(Clone, Debug, PartialEq, Eq)]
 pub struct RunSpec {
     pub clients: Vec<ClientSpec>,
@@ -428,6 +439,8 @@ pub struct RunSpec {
     pub sites: Vec<String>,
     pub sched: SchedSpec,
     pub mailboxes: usize,
+    /// instruction-granular preemptions (empty in ordinary runs)
+    pub preempts: Vec<Preempt>,
 }
 
 impl RunSpec {
@@ -438,7 +451,7 @@ impl RunSpec {
             }
             SchedSpec::List { decisions } => json!({"mode": "list", "decisions": decisions}),
         };
-        json!({
+        let mut v = json!({
             "clients": self.clients.iter().map(|c| json!({
                 "hash_seed": c.hash_seed.to_string(),
                 "ops": c.ops.iter().map(|o| o.to_json()).collect::<Vec<_>>(),
@@ -446,7 +459,15 @@ impl RunSpec {
             "sites": self.sites,
             "sched": sched,
             "mailboxes": self.mailboxes,
-        })
+        });
+        if !self.preempts.is_empty() {
+            v["preempts"] = json!(self
+                .preempts
+                .iter()
+                .map(|p| json!({"client": p.client, "hook_visit": p.visit, "instructions": p.steps, "to": p.to}))
+                .collect::<Vec<_>>());
+        }
+        v
     }
 
     pub fn from_json(v: &Value) -> Option<RunSpec> {
@@ -489,6 +510,22 @@ impl RunSpec {
             sites,
             sched,
             mailboxes: v.get("mailboxes").and_then(|x| x.as_u64()).unwrap_or(0) as usize,
+            preempts: v
+                .get("preempts")
+                .and_then(|x| x.as_array())
+                .map(|a| {
+                    a.iter()
+                        .filter_map(|p| {
+                            Some(Preempt {
+                                client: p.get("client")?.as_u64()? as usize,
+                                visit: p.get("hook_visit")?.as_u64()?,
+                                steps: p.get("instructions")?.as_u64()? as u32,
+                                to: p.get("to")?.as_u64()? as usize,
+                            })
+                        })
+                        .collect()
+                })
+                .unwrap_or_default(),
         })
     }
 }
